@@ -205,7 +205,9 @@ class Scope(object):
         self.parent.annotations.update(self.annotations)
       else:
         # TODO(mdan): This is not accurate.
-        self.parent.read.update(self.read - self.bound)
+        # Names declared nonlocal are bound here, but still belong to an enclosing
+        # function, so reads of them remain free.
+        self.parent.read.update(self.read - (self.bound - self.nonlocals))
         self.parent.annotations.update(self.annotations - self.bound)
     self.is_final = True
 
